@@ -147,6 +147,51 @@ def sameTypeL : List Ty → List Ty → Bool
   | _, _ => false
 end
 
+mutual
+/-- Specification notion (not code): `c` is obtained from `a` by filling every `any` hole with
+some type. -/
+def refines : Ty → Ty → Bool
+  | .any _, _ => true
+  | .prim a, .prim b => a == b
+  | .generic a, .generic b => a == b
+  | .nominal s1 m1 i1 as, .nominal s2 m2 i2 bs =>
+    m1 == m2 && i1 == i2 && s1 == s2 && refinesL as bs
+  | .fn as r, .fn bs r' => refinesL as bs && refines r r'
+  | _, _ => false
+def refinesL : List Ty → List Ty → Bool
+  | [], [] => true
+  | a :: as, b :: bs => refines a b && refinesL as bs
+  | _, _ => false
+end
+
+mutual
+/-- Fill every hole with `int` (witness that a refinement always exists). -/
+def fillInt : Ty → Ty
+  | .any _ => .prim .int
+  | .prim k => .prim k
+  | .generic n => .generic n
+  | .nominal s m i ts => .nominal s m i (fillIntL ts)
+  | .fn as r => .fn (fillIntL as) (fillInt r)
+def fillIntL : List Ty → List Ty
+  | [] => []
+  | t :: ts => fillInt t :: fillIntL ts
+end
+
+mutual
+/-- A common any-free instance of two assignable types (holes of one side filled from the other). -/
+def common : Ty → Ty → Ty
+  | .any _, b => fillInt b
+  | .prim k, _ => .prim k
+  | .generic n, _ => .generic n
+  | .nominal s m i as, .nominal _ _ _ bs => .nominal s m i (commonL as bs)
+  | .nominal s m i as, _ => fillInt (.nominal s m i as)
+  | .fn as r, .fn bs r' => .fn (commonL as bs) (common r r')
+  | .fn as r, _ => fillInt (.fn as r)
+def commonL : List Ty → List Ty → List Ty
+  | a :: as, b :: bs => common a b :: commonL as bs
+  | _, _ => []
+end
+
 abbrev Subst := List (Nat × Ty)
 
 def Subst.get (s : Subst) (n : Nat) : Option Ty :=
